@@ -15,9 +15,11 @@ import (
 	gomavlib "github.com/bluenviron/gomavlib/v3"
 	"github.com/bluenviron/gomavlib/v3/pkg/dialects/ardupilotmega"
 	"github.com/bluenviron/gomavlib/v3/pkg/dialects/common"
+	"github.com/bluenviron/gomavlib/v3/pkg/dialects/minimal"
 	"pgregory.net/rapid"
 
 	"verifharness/evid"
+	"verifharness/ref"
 	"verifharness/sim"
 )
 
@@ -29,16 +31,18 @@ type epSpec struct {
 	frames    int    // frames fed per transport
 	peerGoes  bool   // server kinds: first peer disconnects shortly before the close
 	readFault bool   // serial with a gated transport: the read side fails shortly before Close while the writer is blocked
-	lateOpen  bool   // serial: the device open that follows initialization completes only after Close has begun
-	openGate  chan struct{}
-	opens     int
-	allPipes  []*sim.Pipe
-	port      int
-	pipe      *sim.Pipe
-	listener  net.Listener
-	accepted  []*sim.Peer
-	peerConns []*sim.Peer
-	mu        sync.Mutex
+	// custom: the transport's Read fails shortly before Close (once, or from then on); the node must still close it exactly once
+	customFault string
+	lateOpen    bool // serial: the device open that follows initialization completes only after Close has begun
+	openGate    chan struct{}
+	opens       int
+	allPipes    []*sim.Pipe
+	port        int
+	pipe        *sim.Pipe
+	listener    net.Listener
+	accepted    []*sim.Peer
+	peerConns   []*sim.Peer
+	mu          sync.Mutex
 }
 
 type c12World struct {
@@ -52,13 +56,27 @@ type c12World struct {
 	shortRetry  bool
 	writeTO     time.Duration
 	hbPeriod    time.Duration
+	apHB        bool // traffic includes ArduPilot heartbeats from fresh senders: stream requests and their events are in flight
+}
+
+// trafficFrame is the k-th frame a transport delivers: a DEBUG message, or (every third frame when apHB is set) an
+// ArduPilot heartbeat from a sender not seen before, which makes the node write seven requests and emit an event.
+func (w *c12World) trafficFrame(tag byte, k int) []byte {
+	if w.apHB && k%3 == 0 {
+		l := lay(0)
+		f := ref.Frame{V2: true, Seq: byte(k), Sys: 50 + tag, Comp: byte(k + 1), ID: 0}
+		f.Payload = l.Encode(&minimal.MessageHeartbeat{Type: 2, Autopilot: 3, SystemStatus: 4, MavlinkVersion: 3}, true)
+		f.Checksum = f.ChecksumFor(l.CRCExtra)
+		return f.Bytes()
+	}
+	return tagged(tag, k, "debug", true, nil, 0).Bytes()
 }
 
 func (w *c12World) describe() string {
 	var b strings.Builder
-	fmt.Fprintf(&b, "consumer=%s pauseAfter=%d closeAfter=%v closeOnParkedWriter=%v writers=%d heartbeat=%v(period %v) shortReconnect=%v\n", w.consumer, w.pauseAfter, w.closeAfter, w.closeOnPark, w.writers, w.heartbeat, w.hbPeriod, w.shortRetry)
+	fmt.Fprintf(&b, "consumer=%s pauseAfter=%d closeAfter=%v closeOnParkedWriter=%v writers=%d heartbeat=%v(period %v) shortReconnect=%v arduPilotHeartbeatsInTraffic=%v\n", w.consumer, w.pauseAfter, w.closeAfter, w.closeOnPark, w.writers, w.heartbeat, w.hbPeriod, w.shortRetry, w.apHB)
 	for i, e := range w.eps {
-		fmt.Fprintf(&b, " endpoint %d: %s peers=%d gate=%v refused=%v frames=%d peerDisconnects=%v openCompletesDuringClose=%v readFaultWithBlockedWriter=%v\n", i, e.kind, e.peers, e.gate, e.refused, e.frames, e.peerGoes, e.lateOpen, e.readFault)
+		fmt.Fprintf(&b, " endpoint %d: %s peers=%d gate=%v refused=%v frames=%d peerDisconnects=%v openCompletesDuringClose=%v readFaultWithBlockedWriter=%v customReadFault=%q\n", i, e.kind, e.peers, e.gate, e.refused, e.frames, e.peerGoes, e.lateOpen, e.readFault, e.customFault)
 	}
 	return b.String()
 }
@@ -102,7 +120,7 @@ func init() {
 
 func TestC12Close(t *testing.T) {
 	rec := evid.New(t, "C12", "generated node configurations (custom, TCP/UDP server with peers, TCP/UDP client against a live or refusing address, serial through the hook) with traffic, gated (blocked) transports, a consumer that is absent, running or paused, concurrent Write* callers and a generated close point (immediately, after a delay, once a writer is parked in the transport); Close must return within a bound far above normal (on a miss two goroutine dumps prove the deadlock), afterwards no goroutine started by the library is alive, every listening port can be bound again, accepted connections are closed, each custom transport was closed exactly once, Events() is closed, and racing/following Write* calls return; non-trivial = close while a goroutine is known to be blocked (parked writer, paused/absent consumer with pending events, client in back-off); distinct by hash of the scenario")
-	rec.Require("blocked-writer", "no-consumer", "paused-consumer", "client-backoff", "open-completes-during-close", "reader-failed-while-writer-blocked", "racing-writers", "tcps", "udps", "tcpc", "udpc", "serial", "custom", "bcast")
+	rec.Require("blocked-writer", "no-consumer", "paused-consumer", "client-backoff", "open-completes-during-close", "reader-failed-while-writer-blocked", "racing-writers", "tcps", "udps", "tcpc", "udpc", "serial", "custom", "bcast", "stream-request-event-undelivered", "custom-transport-read-failed-before-close")
 	evid.Check(t, rec, evid.N(250, 700), func(t *rapid.T) {
 		w := &c12World{}
 		ne := rapid.IntRange(1, 4).Draw(t, "neps")
@@ -115,6 +133,9 @@ func TestC12Close(t *testing.T) {
 			e.peerGoes = rapid.IntRange(0, 3).Draw(t, "peer_goes") == 0
 			e.lateOpen = e.kind == "serial" && rapid.IntRange(0, 2).Draw(t, "late_open") == 0
 			e.readFault = e.kind == "serial" && e.gate && !e.lateOpen && rapid.IntRange(0, 3).Draw(t, "read_fault") > 0
+			if e.kind == "custom" {
+				e.customFault = rapid.SampledFrom([]string{"", "", "", "read-error-once", "read-error-persistent"}).Draw(t, "custom_read_fault")
+			}
 			w.eps = append(w.eps, e)
 		}
 		w.consumer = rapid.SampledFrom([]string{"none", "running", "running", "paused"}).Draw(t, "consumer")
@@ -126,6 +147,7 @@ func TestC12Close(t *testing.T) {
 		// from "a tick is almost always being handed over" to "rare ticks"
 		w.hbPeriod = time.Duration(rapid.SampledFrom([]int{1, 5, 20, 100, 500, 2000}).Draw(t, "hb_period_us")) * time.Microsecond
 		w.shortRetry = rapid.IntRange(0, 3).Draw(t, "short_retry") > 0
+		w.apHB = rapid.Bool().Draw(t, "ardupilot_heartbeats")
 		var blocked []string
 		err := watchdog(scenarioLimit, func() error {
 			var e error
@@ -149,6 +171,14 @@ func TestC12Close(t *testing.T) {
 		}
 		if w.writers > 0 {
 			cls = append(cls, "racing-writers")
+		}
+		if w.apHB && w.consumer != "running" {
+			for _, e := range w.eps {
+				if e.frames > 0 && (e.kind == "custom" || (e.kind == "tcps" || e.kind == "udps") && e.peers > 0) {
+					cls = append(cls, "stream-request-event-undelivered")
+					break
+				}
+			}
 		}
 		rec.Case(len(blocked) > 0, evid.HashS(w.describe()), cls...)
 		if len(blocked) > 0 && rec.WantSample("scenario") {
@@ -286,7 +316,7 @@ func runC12(w *c12World) ([]string, error) {
 		switch e.kind {
 		case "custom":
 			for k := 0; k < e.frames; k++ {
-				e.pipe.Feed(tagged(1, k, "debug", true, nil, 0).Bytes())
+				e.pipe.Feed(w.trafficFrame(1, k))
 			}
 		case "tcps", "udps":
 			for pi := 0; pi < e.peers; pi++ {
@@ -303,7 +333,7 @@ func runC12(w *c12World) ([]string, error) {
 				cleanup = append(cleanup, func() { pp.Close() })
 				p.Send([]byte{0x01}) //nolint:errcheck
 				for k := 0; k < e.frames; k++ {
-					p.Send(tagged(2, k, "debug", true, nil, 0).Bytes()) //nolint:errcheck
+					p.Send(w.trafficFrame(2, k)) //nolint:errcheck
 				}
 			}
 		}
@@ -395,6 +425,16 @@ func runC12(w *c12World) ([]string, error) {
 				time.Sleep(2 * time.Millisecond)
 				blocked = append(blocked, "reader-failed-while-writer-blocked")
 			}
+		}
+	}
+	for _, e := range w.eps {
+		if e.kind == "custom" && e.customFault != "" {
+			e.pipe.FailReads(errors.New("injected custom transport read error"))
+			time.Sleep(2 * time.Millisecond)
+			if e.customFault == "read-error-once" {
+				e.pipe.ClearReadError()
+			}
+			blocked = append(blocked, "custom-transport-read-failed-before-close")
 		}
 	}
 	for _, e := range w.eps {
